@@ -235,3 +235,60 @@ func H_C04_chain_order() {
 	}
 	vReach("end")
 }
+
+var vXRefStm *IndirectObject
+
+func vStubParseIndirectXRef(p *Parser) (*IndirectObject, error) { return vXRefStm, nil }
+
+// H_C01_xref_stream_subsections: a cross-reference stream with several /Index subsections assigns the i-th entry of the
+// data to the right object number (the layout incremental updates with xref streams produce).
+//
+//symgo:harness prop=C01 kernel=K4-xref-stream-sections noreplay=1
+//symgo:redirect (*github.com/tsawler/tabula/core.Parser).ParseIndirectObject vStubParseIndirectXRef
+//symgo:desc /W [1 1 1] or [1 2 0] (enumerated); /Index with 1..3 subsections, first object numbers symbolic small integers in increasing order, counts 1..2 (enumerated); all entry bytes symbolic with type in 0..2: every listed object number maps to the entry decoded from its own position in the data and no other number is defined; the object parser is cut (harness-built stream object)
+func H_C01_xref_stream_subsections() {
+	w := []int{1, 1, 1}
+	if vAnyIntIn(0, 1) == 1 {
+		w = []int{1, 2, 0}
+	}
+	width := w[0] + w[1] + w[2]
+	nsec := vAnyIntIn(1, 3)
+	var index Array
+	type ent struct {
+		num        int
+		typ        byte
+		f1, f2     int64
+	}
+	var want []ent
+	var data []byte
+	prev := -1
+	for s := 0; s < nsec; s++ {
+		first := prev + 1 + vAnyIntIn(0, 2)
+		count := vAnyIntIn(1, 2)
+		index = append(index, Int(first), Int(count))
+		for j := 0; j < count; j++ {
+			b := vAnyBytes(width)
+			vAssume(b[0] <= 2)
+			data = append(data, b...)
+			e := ent{num: first + j, typ: b[0]}
+			if w[1] == 1 {
+				e.f1, e.f2 = int64(b[1]), int64(b[2])
+			} else {
+				e.f1 = int64(b[1])<<8 | int64(b[2])
+			}
+			want = append(want, e)
+		}
+		prev = first + count - 1
+	}
+	d := Dict{"Type": Name("XRef"), "Size": Int(prev + 1), "W": Array{Int(w[0]), Int(w[1]), Int(w[2])}, "Index": index}
+	vXRefStm = &IndirectObject{Ref: IndirectRef{Number: 99}, Object: &Stream{Dict: d, Data: data}}
+	tbl, err := NewXRefParser(bytes.NewReader(nil)).parseXRefStream()
+	vAssert("no-error", err == nil && tbl != nil)
+	vAssert("entry-count", tbl.Size() == len(want))
+	for _, e := range want {
+		got, ok := tbl.Get(e.num)
+		vAssert("object-number-defined", ok && got != nil)
+		vAssert("entry-from-its-own-position", int64(got.Type) == int64(e.typ) && got.Offset == e.f1 && got.Generation == int(e.f2))
+	}
+	vReach("end")
+}
